@@ -349,6 +349,8 @@ def run_config(check, cfg, tier, idx):
                                 res["validation_mismatch"].append({"sym": _jsonable(out), "real": _jsonable(oc), "values": _jsonable(mv)})
                         except Exception as e:  # noqa
                             res["validation_mismatch"].append({"sym": _jsonable(out), "error": repr(e), "values": _jsonable(mv)})
+                if abort is None:
+                    res["completed"] = res.get("completed", 0) + 1
                 if len(res["samples"]) < 2 and abort is None:
                     res["samples"].append({"cfg": res["cfg"], "decisions": list(c.trace), "n_constraints": len(c.pc),
                                            "outcome": _jsonable(out), "clauses": sorted(P.decided)})
@@ -358,6 +360,9 @@ def run_config(check, cfg, tier, idx):
         res["errors"].append(f"inconclusive: {e}")
     except Exception as e:  # noqa
         res["errors"].append("harness exception: " + "".join(traceback.format_exception(type(e), e, e.__traceback__))[-1500:])
+    if res["paths"] and not res.get("completed") and not res["violations"] and not res["errors"]:
+        # vacuity guard per configuration: every path ended in an (expected) event, so no obligation was evaluated
+        res["errors"].append(f"no path of this configuration ran to completion (events {res['events']}) cfg={res['cfg']}")
     if eng.truncated:
         res["errors"].append(f"exploration truncated at {eng.stats.paths} paths cfg={res['cfg']}")
     res["stats"] = eng.stats.as_dict()
